@@ -56,6 +56,7 @@ static struct nv_state nv_bstate_make(const struct nv_function* f, const struct 
 {
   struct nv_state s;
   nv_ver_counter = nv_ver_counter + 1; nv_gcount = nv_gcount + 1;
+  s.m_function = (const void*)f;
   s.ver = x0->id; s.eval_ver = s.ver; s.fx_ver = s.ver; s.origin = 0; s.t = 0.0; s.xfin = x0->fin; s.m_fx = x0->fval;
   s.valid = nv_nondet__Bool(); __CPROVER_assume(!s.valid || (NV_ISFIN(s.m_fx) && s.xfin));
   s.dg = nv_nondet_double(); s.gtest = nv_nondet_double(); s.feas = nv_nondet_double(); s.cons_ver = s.ver;
@@ -92,6 +93,17 @@ static _Bool nv_state_uib(struct nv_state* s, const struct nv_vec* x, const stru
 static _Bool nv_state_uib3(struct nv_state* s, const struct nv_vec* x, const struct nv_vec* g, double fx) { return nv_state_uib(s, x, g, fx); }
 static _Bool nv_state_uib2(struct nv_state* s, const struct nv_vec* x, double fx) { return nv_state_uib(s, x, (const struct nv_vec*)0, fx); }
 
+/* solver_state_t::update(x, gx, fx) (src/solver/state.cpp): the triple is stored as given, counters refreshed, returns valid() */
+static _Bool nv_state_update3(struct nv_state* s, const struct nv_vec* x, const struct nv_vec* g, double fx)
+{
+  s->ver = x->id; s->m_fx = fx; s->xfin = x->fin;
+  s->fx_ver = NV_SAME(fx, x->fval) ? x->id : 0;
+  s->eval_ver = (NV_SAME(fx, x->fval) && g->grad_of == x->id) ? x->id : 0;
+  s->valid = nv_nondet__Bool(); __CPROVER_assume(!s->valid || (NV_ISFIN(s->m_fx) && s->xfin));
+  s->gtest = nv_nondet_double();
+  nv_state_update_calls(s);
+  return s->valid;
+}
 /* erased scalar numerics (results of <cmath> on values computed from erased vectors) */
 /* std::sqrt / Eigen dot on erased operands: the value is unknown; the call is recorded (argument, result, evaluation count) */
 static double nv_sqrt(double a) { double r = nv_nondet_double(); nv_sqrt_rec.arg = a; nv_sqrt_rec.res = r; nv_sqrt_rec.at = nv_ver_counter; return r; }
@@ -243,4 +255,57 @@ static double nv_param_D(void) { return nv_nondet_double(); }
 __CPROVER_assigns(state, x, gx, nv_ver_counter, nv_gcount) \
 __CPROVER_loop_invariant(NV_BEST(state, NV_CONS_FULL) && NV_BUDGET2(1)) \
 NV_DECREASES2
+
+/* ---- solver_penalty_t::minimize(penalty_function, x0, logger) (src/solver/penalty.cpp; both penalty solvers share it):
+ * the outer loop minimises the penalty function with an inner solver and moves its own state, built on the OBJECTIVE
+ * (penalty_function.function()), to the inner solution with `bstate.update(x)` = one evaluation of the objective there.
+ * The prophecy field `fval` of a vector is the objective's value; the inner solver returns a state of ANOTHER function:
+ * its value says nothing about the objective (fx_ver = 0). */
+struct nv_function nv_objective;                 /* ghost: the objective, penalty_function.function() */
+static struct nv_function* nv_pf_function(const struct nv_opaque* pf) { return &nv_objective; }
+/* rsolver_t::minimize(penalty_function, x0, logger): the inner solve.  Clears the statistics of the PENALTY function only; every
+ * evaluation of it evaluates the objective (and its gradient) once (src/function/penalty.cpp) */
+static struct nv_state nv_inner_minimize(const struct nv_vec* x0)
+{
+  struct nv_state s = nv_state_default();
+  uint64_t k = nv_nondet_uint64_t(); __CPROVER_assume(1 <= k && k <= 3000000000u);
+  nv_ver_counter = nv_ver_counter + k; nv_gcount = nv_gcount + k;
+  s.ver = nv_nondet_uint64_t(); __CPROVER_assume(s.ver != 0);
+  s.eval_ver = 0; s.fx_ver = 0; s.m_function = (const void*)0; s.xfin = nv_nondet__Bool(); s.m_fx = nv_nondet_double();
+  s.valid = nv_nondet__Bool(); __CPROVER_assume(!s.valid || (NV_ISFIN(s.m_fx) && s.xfin));
+  s.m_status = nv_nondet_int32_t(); s.gtest = nv_nondet_double();
+  return s;
+}
+/* solver_state_t::update(x) (include/nano/solver/state.h): m_x = x; m_fx = m_function->vgrad(m_x, m_gx): one evaluation of the
+ * state's own function at x; returns valid() */
+static _Bool nv_state_update_x(struct nv_state* s, const struct nv_vec* x)
+{
+  nv_ver_counter = nv_ver_counter + 1; nv_gcount = nv_gcount + 1;
+  s->ver = x->id; s->xfin = x->fin; s->eval_ver = s->ver;
+  if (s->m_function == (const void*)&nv_objective) { s->m_fx = x->fval; s->fx_ver = s->ver; }
+  else { s->m_fx = nv_nondet_double(); s->fx_ver = 0; }
+  s->valid = nv_nondet__Bool(); __CPROVER_assume(!s->valid || (NV_ISFIN(s->m_fx) && s->xfin));
+  s->gtest = nv_nondet_double();
+  nv_state_update_calls(s);
+  return s->valid;
+}
+static double nv_param_eta(void) { return nv_nondet_double(); }
+static double nv_param_epsilon0(void) { return nv_nondet_double(); }
+static double nv_param_epsilonK(void) { return nv_nondet_double(); }
+static double nv_param_penalty0(void) { return nv_nondet_double(); }
+static int64_t nv_param_max_outer_iters(void) { int64_t p = nv_nondet_int64_t(); __CPROVER_assume(10 <= p && p <= 100); return p; }
+#define NV_PEN_STATE(s) ((s).ver != 0 && (s).m_function == (const void*)&nv_objective && NV_CONS_FULL(s) && NV_COUNTS2_OK(s))
+#define NV_CONTRACT_penalty_minimize \
+__CPROVER_requires(NV_SOLVER_PARAMS_OK && nv_ver_counter == 0 && nv_gcount == 0 && __CPROVER_is_fresh(self, sizeof(*self)) && __CPROVER_is_fresh(penalty_function, sizeof(*penalty_function))) \
+__CPROVER_requires(__CPROVER_is_fresh(x0, sizeof(*x0)) && x0->id != 0 && x0->fin && NV_ISFIN(x0->fval)) \
+__CPROVER_assigns(nv_ver_counter, nv_gcount) \
+__CPROVER_ensures(NV_STATUS_OK(NV_RET.m_status)) \
+/* the reported value and gradient are the OBJECTIVE's at the reported point */ \
+__CPROVER_ensures(NV_PEN_STATE(NV_RET)) \
+__CPROVER_ensures(NV_RET.m_status != NVE_solver_status_failed ==> (NV_ISFIN(NV_RET.m_fx) && NV_RET.xfin))
+#define NV_LOOP_penalty_minimize_1 \
+__CPROVER_assigns(outer, penalty, solver, bstate, nv_ver_counter, nv_gcount) \
+__CPROVER_loop_invariant(0 <= outer && outer <= max_outers && NV_PEN_STATE(bstate) && bstate.m_status == NVE_solver_status_max_iters && NV_ISFIN(bstate.m_fx) && bstate.xfin) \
+__CPROVER_loop_invariant(0 <= outer && 1 <= nv_ver_counter && nv_gcount <= nv_ver_counter && nv_ver_counter <= 1 + (uint64_t)outer * 3000000001u) \
+__CPROVER_decreases(max_outers - outer)
 #endif
